@@ -347,6 +347,9 @@ func templatesBody(c *explore.Ctx, idx []int, bases []int, orders int) {
 	tmplCopy := append([]byte{}, tmplJSON...)
 	if pv, ps := explore.Catch(func() {
 		if len(rules) > 0 {
+			// the same template was parsed for this type before, without rules: what is remembered of that
+			// must not stand in for this call
+			proto.ParseRewriteTemplate(typ, tmplJSON)
 			rw, err = proto.ParseRewriteTemplate(typ, tmplJSON, rules)
 		} else {
 			rw, err = proto.ParseRewriteTemplate(typ, tmplJSON)
